@@ -155,3 +155,246 @@ Proof.
 Qed.
 
 End Terminal.
+
+(* ------------------------------------------------------------------ C14_returns / refutation *)
+
+Theorem returns_unbuffered cf s :
+  wf_config cf -> cap_in cf = 0 -> reachable cf s -> terminal cf s -> all_returned cf s.
+Proof.
+  intros Hw Hcap Hr Ht.
+  apply terminal_all_returned; auto.
+  - apply invA_reachable; assumption.
+  - apply invB_reachable; assumption.
+  - apply terminal_iff; assumption.
+Qed.
+
+Lemma run_reachable cf ls : forall s s', reachable cf s -> run cf s ls = Some s' -> reachable cf s'.
+Proof.
+  induction ls as [|l t IH]; intros s s' Hr H; simpl in H.
+  - inversion H; subst; exact Hr.
+  - destruct (step cf s l) eqn:E; [|discriminate]. eapply IH; [|exact H]. eapply reach_step; eauto.
+Qed.
+
+(* one caller, one job, one worker, input capacity 1, Stop allowed *)
+Definition cfg_buffered : config := mkConfig 1 1 1 (fun _ => 1) true (fun _ => false).
+Definition deadlock_schedule : list label :=
+  [LAdd 0; LCheck 0; LStop1; LStop2; LQStop; LSend 0; LQHand; LPEmpty; LNoMore 0].
+
+Theorem deadlock_buffered :
+  exists cf s, cap_in cf = 1 /\ wf_config cf /\ reachable cf s /\ terminal cf s /\ ~ all_returned cf s /\
+               input s = [(0, 0)] /\ c_wg (callers s 0) = 1 /\ st_pc s = StRet.
+Proof.
+  exists cfg_buffered.
+  destruct (run cfg_buffered init deadlock_schedule) as [s|] eqn:E; [|vm_compute in E; discriminate].
+  exists s. split; [reflexivity|]. split; [unfold wf_config; simpl; lia|].
+  split; [eapply run_reachable; [apply reach_init|exact E]|].
+  vm_compute in E. inversion E; subst; clear E.
+  split; [vm_compute; reflexivity|].
+  split; [|repeat split; reflexivity].
+  intros [H _]. specialize (H 0 ltac:(simpl; lia)). destruct H as [H _]. vm_compute in H. discriminate.
+Qed.
+
+(* ------------------------------------------------------------------ exactly once *)
+
+Lemma cntc_zero_all c l : cntc c l = 0 -> forall i, cntj (c, i) l = 0.
+Proof. intros H i. apply (cntc_zero_cntj (c, i)). exact H. Qed.
+
+(* safety, every reachable state: a job is reported at most once, and only if it was accepted *)
+Theorem delivered_le_accepted cf s : reachable cf s ->
+  forall c i, cntj (c, i) (deliv s) <= 1 /\
+              (0 < cntj (c, i) (deliv s) -> i < c_nxt (callers s c) /\ i < njobs cf c).
+Proof.
+  intros Hr c i. pose proof (b_job _ _ (invB_reachable _ _ Hr) (c, i)) as J. simpl in J.
+  pose proof (ac_nxt _ _ _ _ (a_caller _ _ (invA_reachable _ _ Hr) c)) as N.
+  destruct (i <? c_nxt (callers s c)) eqn:E; simpl in J.
+  - apply Nat.ltb_lt in E. lia.
+  - lia.
+Qed.
+
+(* at return: exactly the accepted jobs have been reported, each exactly once *)
+Theorem delivered_eq_accepted cf s c : reachable cf s -> c_spc (callers s c) = SRet ->
+  forall i, cntj (c, i) (deliv s) = Nat.b2n (i <? c_nxt (callers s c)).
+Proof.
+  intros Hr S i.
+  pose proof (invB_reachable _ _ Hr) as HB.
+  pose proof (b_job _ _ HB (c, i)) as J. simpl in J.
+  pose proof (b_caller _ _ HB c) as KB.
+  assert (c_wg (callers s c) = 0) as Z by (apply (bc_zero _ _ _ KB); right; rewrite S; reflexivity).
+  pose proof (bc_wg _ _ _ KB) as W. rewrite Z in W.
+  assert (cntj (c, i) (inflight s) = 0) by (apply cntc_zero_all; lia).
+  assert (cntj (c, i) (res s) = 0) by (apply cntc_zero_all; lia).
+  assert (cntj (c, i) (c_hand (callers s c)) = 0).
+  { pose proof (cntp_le (job_eqb (c, i)) (c_hand (callers s c))). unfold cntj. lia. }
+  lia.
+Qed.
+
+(* nothing is refused unless the run was stopped or the caller cancelled *)
+Theorem all_accepted_when_undisturbed cf s c : reachable cf s -> c_spc (callers s c) = SRet ->
+  can_stop cf = false -> can_cancel cf c = false -> c_nxt (callers s c) = njobs cf c.
+Proof.
+  intros Hr S Hs Hc. pose proof (invA_reachable _ _ Hr) as HA.
+  pose proof (a_caller _ _ HA c) as KA.
+  destruct (ac_done _ _ _ _ KA) as [H|[H|H]]; [rewrite S; reflexivity|exact H| |].
+  - apply (ac_cancel _ _ _ _ KA) in H. congruence.
+  - apply (a_canstop _ _ HA) in H. congruence.
+Qed.
+
+Theorem worker_bound cf s : reachable cf s -> length (running s) + returning s <= maxw cf.
+Proof. intro Hr. destruct (a_tokens _ _ (invA_reachable _ _ Hr)). lia. Qed.
+
+Theorem no_negative_waitgroup cf s : reachable cf s -> err s = false.
+Proof. intro Hr. exact (b_err _ _ (invB_reachable _ _ Hr)). Qed.
+
+(* after a Stop that returned, in a terminal state, no goroutine of the group is left *)
+Theorem stopped_no_leak cf s : wf_config cf -> reachable cf s -> terminal cf s -> st_pc s = StRet ->
+  q_pc s = QExit /\ p_pc s = PExit /\ running s = [] /\ returning s = 0 /\ queue s = [].
+Proof.
+  intros Hw Hr Ht Hs.
+  pose proof (invA_reachable _ _ Hr) as HA.
+  pose proof (proj1 (terminal_iff _ _) Ht) as HT.
+  assert (q_pc s = QExit) as Q.
+  { destruct (t_qpc cf s HA Hw HT) as [Q|Q]; [|exact Q]. exfalso.
+    pose proof (a_stret _ _ HA) as F. rewrite Hs, Q in F. simpl in F. destruct F; auto; discriminate. }
+  split; [exact Q|]. split.
+  - destruct (t_ppc cf s HA Hw HT) as [P|P]; [|exact P]. exfalso.
+    pose proof (a_final _ _ HA) as F. rewrite Q in F. simpl in F.
+    pose proof (a_finalp _ _ HA F) as G. rewrite P in G. discriminate.
+  - split; [apply (t_running cf s HT)|]. split; [apply (t_returning cf s HT)|].
+    apply (t_queue cf s HA Hw HT).
+Qed.
+
+(* ------------------------------------------------------------------ the model's outcomes satisfy the property *)
+
+Lemma cntj_delivered_to s c i : cntj (c, i) (deliv s) = count_occ Nat.eq_dec (delivered_to s c) i.
+Proof.
+  unfold delivered_to, cntj, cntp. induction (deliv s) as [|[a b] l IH]; simpl; [reflexivity|].
+  unfold of_caller, job_eqb. simpl.
+  destruct (Nat.eqb_spec a c) as [->|Hn]; simpl.
+  - rewrite Nat.eqb_refl. simpl. destruct (Nat.eq_dec b i) as [->|Hb].
+    + rewrite Nat.eqb_refl. simpl. f_equal. exact IH.
+    + destruct (Nat.eqb_spec i b); [congruence|]. simpl. exact IH.
+  - destruct (Nat.eqb_spec c a); [congruence|]. simpl. exact IH.
+Qed.
+
+Lemma delivered_perm cf s c : reachable cf s -> c_spc (callers s c) = SRet ->
+  Permutation (delivered_to s c) (seq 0 (c_nxt (callers s c))).
+Proof.
+  intros Hr S.
+  assert (forall i, count_occ Nat.eq_dec (delivered_to s c) i = Nat.b2n (i <? c_nxt (callers s c))) as H.
+  { intro i. rewrite <- cntj_delivered_to. apply (delivered_eq_accepted cf); assumption. }
+  apply NoDup_Permutation.
+  - apply (NoDup_count_occ Nat.eq_dec). intro i. rewrite H. destruct (i <? _); simpl; lia.
+  - apply seq_NoDup.
+  - intro i. rewrite (count_occ_In Nat.eq_dec), H, in_seq.
+    destruct (i <? c_nxt (callers s c)) eqn:E; simpl.
+    + apply Nat.ltb_lt in E. lia.
+    + apply Nat.ltb_ge in E. lia.
+Qed.
+
+Lemma NoDup_map_of_nat l : NoDup l -> NoDup (map N.of_nat l).
+Proof.
+  induction 1 as [|x l Hx Hn IH]; simpl; constructor; [|exact IH].
+  intro H. apply in_map_iff in H as [y [Hy Hin]]. apply Nat2N.inj in Hy. subst. contradiction.
+Qed.
+
+Theorem model_outcome cf s c :
+  wf_config cf -> cap_in cf = 0 -> reachable cf s -> terminal cf s -> c < ncallers cf ->
+  caller_spec true (N.of_nat (njobs cf c)) (can_stop cf || can_cancel cf c) true
+              (map N.of_nat (delivered_to s c)) 0 0 0.
+Proof.
+  intros Hw Hcap Hr Ht Hc.
+  destruct (returns_unbuffered cf s Hw Hcap Hr Ht) as [Hall _].
+  destruct (Hall c Hc) as [S _].
+  pose proof (delivered_perm cf s c Hr S) as P.
+  pose proof (ac_nxt _ _ _ _ (a_caller _ _ (invA_reachable _ _ Hr) c)) as Hn.
+  assert (length (delivered_to s c) = c_nxt (callers s c)) as L
+    by (rewrite (Permutation_length P); apply seq_length).
+  assert (forall v, In v (map N.of_nat (delivered_to s c)) -> (v < N.of_nat (c_nxt (callers s c)))%N) as B.
+  { intros v Hv. apply in_map_iff in Hv as [i [<- Hi]].
+    apply (Permutation_in _ P) in Hi. apply in_seq in Hi. lia. }
+  unfold caller_spec. rewrite map_length, L.
+  split; [reflexivity|]. split; [reflexivity|].
+  split; [apply NoDup_map_of_nat; apply (Permutation_NoDup (Permutation_sym P)); apply seq_NoDup|].
+  split; [intros v Hv; specialize (B v Hv); lia|].
+  split; [|discriminate].
+  intros _. cbv zeta. rewrite N.add_0_r.
+  split; [exact B|]. split; [lia|]. split; [lia|].
+  intro Hh. apply orb_false_iff in Hh as [H1 H2].
+  rewrite (all_accepted_when_undisturbed cf s c Hr S H1 H2). reflexivity.
+Qed.
+
+(* ------------------------------------------------------------------ checker K is sound *)
+
+Lemma nseq_In lo len v : In v (nseq lo len) <-> (lo <= v < lo + N.of_nat len)%N.
+Proof.
+  revert lo. induction len as [|k IH]; intro lo; simpl.
+  - split; [intros []|lia].
+  - rewrite IH. split; [intros [H|H]|intro H]; try lia.
+Qed.
+Lemma nseq_NoDup lo len : NoDup (nseq lo len).
+Proof.
+  revert lo. induction len as [|k IH]; intro lo; simpl; constructor; [|apply IH].
+  rewrite nseq_In. lia.
+Qed.
+Lemma nseq_length lo len : length (nseq lo len) = len.
+Proof. revert lo. induction len as [|k IH]; intro lo; simpl; [reflexivity|rewrite IH; reflexivity]. Qed.
+
+Lemma NoDup_app_disjoint {A} (l1 l2 : list A) :
+  NoDup l1 -> NoDup l2 -> (forall x, In x l1 -> ~ In x l2) -> NoDup (l1 ++ l2).
+Proof.
+  induction 1 as [|x l Hx Hn IH]; intros H2 Hd; simpl; [exact H2|].
+  constructor.
+  - rewrite in_app_iff. intros [H|H]; [contradiction|]. apply (Hd x); [left; reflexivity|exact H].
+  - apply IH; [exact H2|]. intros y Hy. apply Hd. right. exact Hy.
+Qed.
+
+Lemma runs_ok_spec runs : forall prev bound, runs_ok prev bound runs = true ->
+  NoDup (expand runs) /\ (forall v, In v (expand runs) -> (prev <= v < bound)%N) /\
+  N.of_nat (length (expand runs)) = runs_total runs.
+Proof.
+  induction runs as [|[lo hi] t IH]; intros prev bound H; simpl in *.
+  - split; [constructor|]. split; [intros v []|reflexivity].
+  - apply andb_true_iff in H as [H H4]. apply andb_true_iff in H as [H H3]. apply andb_true_iff in H as [H1 H2].
+    apply N.leb_le in H1, H3. apply N.ltb_lt in H2.
+    destruct (IH hi bound H4) as [N1 [B1 T1]].
+    unfold expand in *. simpl. fold (expand t) in *.
+    assert (forall v, In v (nseq lo (N.to_nat (hi - lo))) -> (lo <= v < hi)%N) as Hin
+      by (intros v Hv; apply nseq_In in Hv; lia).
+    split; [|split].
+    + apply NoDup_app_disjoint; [apply nseq_NoDup|exact N1|].
+      intros x Hx Hx2. specialize (Hin x Hx). specialize (B1 x Hx2). lia.
+    + intros v Hv. apply in_app_iff in Hv as [Hv|Hv]; [specialize (Hin v Hv); lia|specialize (B1 v Hv); lia].
+    + rewrite app_length, nseq_length, Nat2N.inj_add, T1. lia.
+Qed.
+
+Lemma check_caller_sound errvis k : check_caller false errvis k = true ->
+  caller_spec errvis (oc_n k) (oc_hit k) (oc_ret k) (expand (oc_runs k)) (oc_errs k) (oc_bogus k) (oc_lb k).
+Proof.
+  unfold check_caller, caller_spec. intro H.
+  apply andb_true_iff in H as [H H3]. apply andb_true_iff in H as [H1 H2].
+  rewrite orb_false_r in H1. apply N.eqb_eq in H2.
+  split; [exact H1|]. split; [exact H2|].
+  destruct errvis.
+  - apply andb_true_iff in H3 as [H3 H7]. apply andb_true_iff in H3 as [H3 H6]. apply andb_true_iff in H3 as [H4 H5].
+    destruct (runs_ok_spec _ _ _ H4) as [N1 [B1 T1]].
+    apply N.leb_le in H5, H6.
+    split; [exact N1|]. split; [intros v Hv; specialize (B1 v Hv); lia|].
+    split; [|discriminate]. intros _. cbv zeta. rewrite T1.
+    split; [intros v Hv; specialize (B1 v Hv); lia|]. split; [exact H5|]. split; [exact H6|].
+    intro Hh. rewrite Hh, H1 in H7. simpl in H7. apply N.eqb_eq in H7. exact H7.
+  - apply andb_true_iff in H3 as [H3 H6]. apply andb_true_iff in H3 as [H4 H5].
+    destruct (runs_ok_spec _ _ _ H4) as [N1 [B1 T1]]. apply N.leb_le in H5.
+    split; [exact N1|]. split; [intros v Hv; specialize (B1 v Hv); lia|].
+    split; [discriminate|]. intros _. rewrite T1. split; [exact H5|].
+    intro Hh. rewrite Hh, H1 in H6. simpl in H6. apply N.eqb_eq in H6. exact H6.
+Qed.
+
+Theorem C14_check_sound c : C14_check c = true -> C14_spec c.
+Proof.
+  unfold C14_check, check_gen, C14_spec. intro H.
+  apply andb_true_iff in H as [H H3]. apply andb_true_iff in H as [H1 H2].
+  simpl in H3. apply andb_true_iff in H3 as [H3 H4].
+  split; [|split; [apply N.leb_le; exact H2|split; [exact H3|apply N.eqb_eq; exact H4]]].
+  apply Forall_forall. intros k Hk. apply check_caller_sound.
+  rewrite forallb_forall in H1. apply H1. exact Hk.
+Qed.
